@@ -40,37 +40,7 @@ ASSUMPTIONS = [
 DYNAMIC = ('globals()', 'exec(', 'eval(', 'setattr(', '__dict__', 'vars()', 'locals()')
 
 
-T_IMPL = 'cmd * list (N * list alt) * list N * list N'
-T_REF = 'cmd * list nat * trace'
-
-
-def guarded_cases(ctx, imports, prelude, fn, terms, shard, case_type, key):
-    """ctx.run_cases with a cost guard: the model's environments are closures, so a rare program (deeply
-    nested loops around try/finally) costs minutes to evaluate. When a shard exceeds its time budget the
-    cases are re-run in chunks of 10 and then singly; a single case that still exceeds 10 s (+ one retry
-    with 40 s) is skipped and counted in coverage[<key>_cases_skipped_for_cost] - never reported."""
-    try:
-        return ctx.run_cases(imports, prelude, fn, terms, case_type=case_type, shard=shard, timeout=60)
-    except RuntimeError as e:
-        if 'rc=124' not in str(e):
-            raise
-    bad, skipped = [], 0
-    for off in range(0, len(terms), 10):
-        chunk = terms[off:off + 10]
-        try:
-            bad += [off + i for i in ctx.run_cases(imports, prelude, fn, chunk, case_type=case_type, shard=10, timeout=25)]
-        except RuntimeError as e:
-            if 'rc=124' not in str(e):
-                raise
-            for j, t in enumerate(chunk):
-                try:
-                    bad += [off + j for _ in ctx.run_cases(imports, prelude, fn, [t], case_type=case_type, shard=1, timeout=10)]
-                except RuntimeError as e2:
-                    if 'rc=124' not in str(e2):
-                        raise
-                    skipped += 1
-    ctx.coverage[key + '_cases_skipped_for_cost'] = ctx.coverage.get(key + '_cases_skipped_for_cost', 0) + skipped
-    return sorted(bad)
+guarded_cases, T_IMPL, T_REF = rc.guarded_cases, rc.T_IMPL, rc.T_REF
 
 
 def part_a(ctx):
